@@ -676,6 +676,15 @@ def gen_mtl(rng: random.Random, overlap=False, nested=None, bound=2 ** 20):
                 pool.append(q)
                 params.append(q)
                 terms.append(p.op("sum", [q]))          # additive parameter
+            if rng.random() < 0.25:
+                # two same-shape parameters entering additively: autograd hands back ONE gradient
+                # tensor for both (aliasing hazard for whoever stores it without cloning)
+                f0 = feats[0]
+                b1 = p.leaf(p.shapes[f0], _rand_vals(rng, p.shapes[f0]), True)
+                b2 = p.leaf(p.shapes[f0], _rand_vals(rng, p.shapes[f0]), True)
+                pool += [b1, b2]
+                params += [b1, b2]
+                terms.append(p.op("sum", [p.op("add", [p.op("add", [f0, b1]), b2])]))
             if overlap and trunk_leaves and (ti == 0 or rng.random() < 0.4):
                 x = rng.choice(trunk_leaves)
                 terms.append(p.op("sum", [x]))
